@@ -112,3 +112,23 @@ def clause_upserts(prog, rep, sch, sites, only_tables=None):
                       "messages upsert key is %s / pk %s" % (s.stmt.conflict_cols, sch.pk("messages")), s.loc())
 
 
+
+
+def sibling_snapshot_copy(prog, rep, sites, rule, prefix, snap_table="group_state_snapshots"):
+    """the other snapshots of a group that restore reads and writes back are copied verbatim: the re-insert binds every column it
+    writes from what was read (no column recomputed in SQL, e.g. created_at = now), otherwise a rollback changes the age / content
+    of the snapshots that survive it"""
+    import sqlmod as _sq
+    rb = [s for s in sites if s.fn.root and "restore_group_from_snapshot" in s.fn.root or "restore_group_from_snapshot" in s.fn.path]
+    reads = [s for s in rb if s.stmt.kind == "SELECT" and s.stmt.table == snap_table and any(c == "snapshot_name" and o in ("!=", "<>") for c, o, r in s.stmt.where)]
+    writes = [s for s in rb if s.stmt.kind == "INSERT" and s.stmt.table == snap_table]
+    rep.floor(rule, "%ssibling snapshot read / write-back in restore" % prefix, min(len(reads), len(writes)), 1)
+    for w in writes:
+        computed = [(c, v) for c, v in zip(w.stmt.columns, w.stmt.values) if v != "?"]
+        read_cols = set(c for r in reads for c in r.stmt.select_cols)
+        unread = [c for c in w.stmt.columns if c not in read_cols and c not in ("group_id",)]
+        rep.check(not computed and not unread and len(w.stmt.values) == len(w.stmt.columns), rule, "%ssibling-snapshots-copied-verbatim" % prefix,
+                  "the surviving snapshots are written back with every column as read (%s)" % w.stmt.columns,
+                  "restore writes the surviving snapshots back with %s: their %s no longer is what it was before the rollback"
+                  % ("; ".join(["%s = %s" % cv for cv in computed] + ["%s not read" % c for c in unread]),
+                     ", ".join([c for c, v in computed] + unread)), w.loc())
